@@ -979,6 +979,15 @@ fn execute_once(scn: &Scn, prop: &str, stats: &mut Stats, entropy: u64) -> Outco
                 death = Some((col.end_ns, format!("{} (unplanned panic)", name)));
             }
         }
+        // a configuration whose largest reply cannot fit the buffer may be refused at start-up (C18)
+        let refusable = 20 + 18 * scn.max_response_peers > 8192;
+        if let (None, Some((t, Err(msg)))) = (&death, &col.run_returned) {
+            if refusable && *t < 1_000_000 {
+                stats.probe("configuration-refused-at-startup");
+                let _ = msg;
+                return Outcome { violations, fingerprint: report.log_hash, signature: Some(report.sig_hash ^ 0xC18) };
+            }
+        }
         match (&death, &col.run_returned) {
             (None, Some((t, r))) => violations.push(Violation::new("C19", "run-keeps-running-without-death", "run-returned-spontaneously", format!("no worker died, but run() returned at {} ms with {:?}", t / 1_000_000, r))),
             (Some((d, who)), None) => {
@@ -1304,7 +1313,16 @@ fn judge(o: &mut Oracle, h: &Handled, col: &Collected, in_reload_window: bool, t
                 Tri::Yes => {}
             }
             let Some(r) = &h.reply else {
-                o.fail(&["C06", "C05"], "one-reply-for-well-formed-request", "announce-unanswered", format!("well-formed announce from {} with a valid connection id got no reply (worker {})", src, tname(h.tid)));
+                // was the computed reply too large for the tracker's send buffer? (C18)
+                let fam = Fam::of(&src.ip());
+                let others = o.model.size(fam, &ih).saturating_sub(o.model.torrents.get(&(fam, ih)).map_or(0, |l| l.iter().filter(|(k, _)| *k == (src.ip(), port)).count()));
+                let n = others.min(limit_of(Some(want as i64), scn.max_response_peers));
+                let need = 20 + n * if fam == Fam::V4 { 6 } else { 18 };
+                if need > 8192 {
+                    o.fail(&["C18", "C06"], "reply-fits-buffer", "announce-reply-exceeds-buffer", format!("announce from {} (want {}, max_response_peers {}, {} other stored peers): the {}-byte reply does not fit the 8192-byte buffer and was dropped", src, want, scn.max_response_peers, others, need));
+                } else {
+                    o.fail(&["C06", "C05"], "one-reply-for-well-formed-request", "announce-unanswered", format!("well-formed announce from {} with a valid connection id got no reply (worker {})", src, tname(h.tid)));
+                }
                 return;
             };
             expect_tx(o, tx);
@@ -1398,7 +1416,7 @@ fn judge(o: &mut Oracle, h: &Handled, col: &Collected, in_reload_window: bool, t
                 // the reply may have been too large for the send buffer: that is C18's business
                 let need = 8 + 12 * n_expected;
                 let sig = if need > 8192 { "scrape-reply-exceeds-buffer" } else { "scrape-unanswered" };
-                o.fail(&["C06", "C18"], "one-reply-for-well-formed-request", sig, format!("well-formed scrape of {} hashes from {} with a valid connection id got no reply", ihs.len(), src));
+                o.fail(if need > 8192 { &["C18", "C06"] } else { &["C06"] }, if need > 8192 { "reply-fits-buffer" } else { "one-reply-for-well-formed-request" }, sig, format!("well-formed scrape of {} hashes from {} with a valid connection id got no reply", ihs.len(), src));
                 return;
             };
             expect_tx(o, tx);
